@@ -2042,12 +2042,23 @@ class SQLModel:
             sql_format_options = self.default_SQL_format_options
         assert isinstance(sql_format_options, SQLFormatOptions)
         if force_sql:
-            return [
-                "SELECT",
-                sql_format_options.sql_indent + "*",
-                "FROM ",
-                sql_format_options.sql_indent + near_sql.quoted_query_name,
-            ]
+            if (columns is not None) and (len(columns) > 0):
+                # name what was asked for: the expression may carry more columns (it cannot always be narrowed)
+                # and a UNION ALL member is read by position
+                col_lines = self._indent_and_sep_terms(
+                    [self.quote_identifier(c) for c in columns],
+                    sql_format_options=sql_format_options,
+                )
+            else:
+                col_lines = [sql_format_options.sql_indent + "*"]
+            return (
+                ["SELECT"]
+                + col_lines
+                + [
+                    "FROM ",
+                    sql_format_options.sql_indent + near_sql.quoted_query_name,
+                ]
+            )
         return [near_sql.quoted_query_name]
 
     def nearsqltable_to_sql_str_list_(
@@ -2239,8 +2250,15 @@ class SQLModel:
                     and (sub_suffix is not None)
                     and (len(sub_suffix) > 0)
                 ):
+                    select_what = "*"
+                    if (sub_container.columns is not None) and (
+                        len(sub_container.columns) > 0
+                    ):
+                        select_what = ", ".join(
+                            [self.quote_identifier(c) for c in sub_container.columns]
+                        )
                     return (
-                        ["SELECT * FROM ("]
+                        ["SELECT " + select_what + " FROM ("]
                         + [sql_format_options.sql_indent + si for si in substr]
                         + [") " + self.quote_identifier(side_name)]
                     )
